@@ -28,9 +28,9 @@ META = {
     "specs": ["Security", "SecurityTrace"],
 }
 
-KINDS = ["html_block", "html_inline", "raw_dir", "evalrst_raw", "evalrst_rawrole", "hardbreak", "strike",
+KINDS = ["html_block", "html_inline", "raw_dir", "evalrst_raw", "evalrst_rawrole", "hardbreak", "strike", "html_cblock", "evalrst_mdsub",
          "include", "include_literal", "include_code", "include_angle", "evalrst_include", "csv_file", "raw_file"]
-RAWK = KINDS[:7]
+RAWK = KINDS[:8]
 WRAPPERS = ["none", "quote", "list", "note", "sec"]
 INVS = ["NoRawWhenDisabled", "NoFileWhenDisabled", "RefusalsWarn", "MarkersKept", "AllowedPass"]
 
@@ -46,6 +46,10 @@ def _audit(event, args):
 def construct_lines(kind, n, d: Path):
     if kind == "html_block":
         return [f"<div>SENTINEL{n}x</div>"]
+    if kind == "html_cblock":
+        return [f"<!-- begin --><script>SENTINEL{n}x()</script><!-- end -->"]
+    if kind == "evalrst_mdsub":
+        return ["```{eval-rst}", f"see |badge{n}|", "```"]
     if kind == "html_inline":
         return [f"inline <b>SENTINEL{n}x</b> text"]
     if kind == "raw_dir":
@@ -127,7 +131,8 @@ def observe(case):
     src = d / "doc.md"
     src.write_text(text)
     ov = {"raw_enabled": case["rawOn"], "file_insertion_enabled": case["fileOn"],
-          "myst_enable_extensions": ["strikethrough"], "report_level": 2}
+          "myst_enable_extensions": ["strikethrough", "substitution"], "report_level": 2,
+          "myst_substitutions": {f"badge{n}": f"<b>SENTINEL{n}x</b>" for n in range(1, len(case["doc"]) + 1)}}
     if case.get("suppress"):
         ov["myst_suppress_warnings"] = ["myst", "docutils"]
     _opened.clear()
@@ -167,7 +172,7 @@ def observe(case):
     for n in range(len(doc)):
         per[n]["read"] = any(re.search(rf"(inc|data){n + 1}\.", p) for p in opened)
         # the payload as live markup (a quoted, escaped copy inside a system message does not count)
-        per[n]["html"] = re.search(rf"<(div|b|p|i)>SENTINEL{n + 1}x", html) is not None
+        per[n]["html"] = re.search(rf"<(div|b|p|i|script)>SENTINEL{n + 1}x", html) is not None
         if f"FILESENTINEL{n + 1}x" in html and not per[n]["ins"]:
             per[n]["ins"] += 1
     import shutil
@@ -239,7 +244,7 @@ def run(ctx):
                         "file reads observed through sys.addaudithook('open') in the worker processes"]
     base = {"DevFilterSkips": False, "DevAngleNoGate": False, "DevFilterLastSection": False}
     runs = [("pairs", KINDS, WRAPPERS, 2 if quick else 2), ("rawtriples", RAWK, ["none"], 3),
-            ("files", KINDS[7:], ["none", "note"], 2 if quick else 3)]
+            ("files", KINDS[9:], ["none", "note"], 2 if quick else 3)]
     if not quick:
         runs.append(("triples_top", KINDS, ["none"], 3))
     recs = []
